@@ -229,14 +229,20 @@ CLAIMED = {
     ),
     "C17": dict(
         level="other",
-        text="Decides one structural clause of the group-extent part of the property: every public method of the group-capable "
-             "shape collections that inserts a shape element (and FreeformBuilder.convert_to_shape, which inserts on their behalf) "
-             "is post-dominated on all paths by an extent recalculation; the collection hook delegates to the group element; "
-             "CT_GroupShape.recalculate_extents assigns x, y, cx, cy from the min/max child extents and recurses to the parent. "
-             "NOT decided (value-level arithmetic, a different technique family): connector end-point assignments across "
-             "flips, the extents arithmetic itself, freeform scaling and path extents.",
-        technique="static analysis: statement-level must-follow (post-dominance) of the recalculation call after insertion calls, "
-                  "structural shape of the recalculation hooks",
+        text="Structural clauses of geometry consistency: (R17.1) every public method of the group-capable shape collections that "
+             "inserts a shape element (and FreeformBuilder.convert_to_shape) is post-dominated on all paths by an extent "
+             "recalculation, following self-calls whose every path recalculates (resolved in the concrete group class); (R17.2) "
+             "the collection hook delegates to the group element, and CT_GroupShape.recalculate_extents has no early exit "
+             "other than the not-a-group guard, assigns x/y/cx/cy and chOff/chExt from _child_extents and ends in the "
+             "unconditional upward recursion; (R17.3) the freeform offsets and extents range over every coordinate-bearing "
+             "drawing operation and the start point; (R17.4) for each of the four connector end-point setters every path is "
+             "evaluated in polynomial normal form (comparisons become facts, abs() is resolved by a fact that states the sign - "
+             "no solver) and must give: moved end-point == assigned value, other end-point unchanged, extent stated "
+             "non-negative by the path condition; the end-point formulas are read from the getters. NOT decided: min/max "
+             "arithmetic of the child extents, freeform scaling and rounding.",
+        technique="static analysis: statement-level must-follow (post-dominance) with interprocedural must-summaries, structural "
+                  "shape rules, population agreement between sibling properties, path-sensitive abstract evaluation in a "
+                  "polynomial normal-form domain with syntactic entailment",
         design="DESIGN.md §4 C17",
     ),
     "C18": dict(
